@@ -178,6 +178,9 @@ func checkC02(c *Ctx) {
 			c.borrowKinds("C01", func() { c.c01Sibling(fo) }, "R02.2", sib+".Get:key-lock-entry", []string{"R01.2"}, "insert-not-fresh-entry")
 		}
 	}
+	// R02.5 also for restored entries: every decoded record gets storage of its own (a re-used decode target leaves fields of the
+	// previous record in the next one: Get then returns a value assembled from another key's) (C13 R13.1)
+	c.borrowKinds("C13", func() { checkC13(c) }, "R02.5", "Restore:own-storage-per-record", []string{"R13.1"}, "decode-target-reused")
 	// R02.6: "a value found in the backend": the backend is the one the Failover was configured with
 	c.c04CtorWiring("R02.6", true)
 }
